@@ -25,7 +25,7 @@ from symx.concolic import model_values
 from symx.report import standard_main
 
 PID = "C04"
-NCOL, T0 = 13, 7
+NCOL, T0 = 37, 24          # columns T0-24 .. T0+12: room for two-digit lags and leads
 
 
 # ------------------------------------------------------------------------------------------
@@ -137,6 +137,14 @@ def cases(tier):
         call = f"{f}(y+z[-1], -2)"
         sp = base_spec(f"0.5*{call}")
         out.append((f"pseudo_sum_argument:{call}", render_plain(sp), sp, None, "equal"))
+    # two-digit time shifts, written and generated by pseudofunctions (monthly models: 12-period lags)
+    for expr, cid in (("a*x[-1] + 0.5*y[-12] - z[+10]", "written"), ("a*x[-12] + y[-11]*z[-10]", "written_product")):
+        sp = base_spec(expr)
+        out.append((f"two_digit_shift:{cid}", render_plain(sp), sp, None, "equal"))
+        out.append((f"two_digit_shift:{cid}:curly", render_plain(sp, shift_style="{"), sp, None, "equal"))
+    for call in ("diff(y, -12)", "pct(y, -12)", "mov_sum(y, -12)", "mov_avg(y[-1], -11)", "shift(y[-6], -6)", "roc(y, -10)", "diff_log(y[-3], -12)"):
+        sp = base_spec(f"0.5*{call}")
+        out.append((f"two_digit_shift:{call}", render_plain(sp), sp, None, "equal"))
     # shocks at a lag or lead (each occurrence stands for shock + anticipated twin at that date)
     for expr, cid in (("a*x[-1] + 0.5*e[-1]", "lagged_shock"), ("a*x[-1] + 0.25*e[+1] - e[-2]", "led_and_lagged_shock")):
         sp = base_spec(expr)
